@@ -36,6 +36,23 @@ type universe struct {
 	pkT, pkO   []byte
 	O          wire.OutPoint
 	hT, h1, h2 chainhash.Hash
+
+	// obj lists the watched objects: obj[0] = (T, O with spenders S1,S2) is the
+	// universe of the single-object spaces; obj[1] = (U, O' with spender R1) is an
+	// unrelated second watched transaction / outpoint (own scripts, own keys) that
+	// only the "pair" spaces put into blocks.
+	obj [2]object
+}
+
+// object is one watched transaction plus one watched outpoint.
+type object struct {
+	txName   string // name of the watched tx in block contents
+	tx       *wire.MsgTx
+	hT       chainhash.Hash
+	pkT      []byte
+	O        wire.OutPoint
+	pkO      []byte
+	spenders []string // names of the (mutually conflicting) spenders of O
 }
 
 var uni = func() *universe {
@@ -61,8 +78,30 @@ var uni = func() *universe {
 	}
 	u.S1, u.S2 = mkSpender(0xa1), mkSpender(0xa2)
 	u.hT, u.h1, u.h2 = u.T.TxHash(), u.S1.TxHash(), u.S2.TxHash()
+	u.obj[0] = object{txName: "T", tx: u.T, hT: u.hT, pkT: u.pkT, O: u.O, pkO: u.pkO, spenders: []string{"S1", "S2"}}
+
+	// Second object: nothing of it (txid, scripts, keys, outpoints) coincides with the first.
+	key2 := append([]byte{0x03}, bytesOf(0x4d, 32)...)
+	key3 := append([]byte{0x02}, bytesOf(0x5e, 32)...)
+	o2 := object{txName: "U", spenders: []string{"R1"}}
+	o2.pkT = append([]byte{0x00, 0x20}, bytesOf(0x7b, 32)...)
+	o2.pkO = append([]byte{0x00, 0x14}, address.Hash160(key2)...)
+	o2.O = wire.OutPoint{Hash: chainhash.Hash{0x33, 0x33}, Index: 2}
+	o2.tx = wire.NewMsgTx(2)
+	o2.tx.AddTxIn(&wire.TxIn{PreviousOutPoint: wire.OutPoint{Hash: chainhash.Hash{0x12}, Index: 0},
+		Witness: wire.TxWitness{bytesOf(0x30, 71), key3}})
+	o2.tx.AddTxOut(wire.NewTxOut(60_000, o2.pkT))
+	o2.hT = o2.tx.TxHash()
+	u.obj[1] = o2
+	r1 := wire.NewMsgTx(2)
+	r1.AddTxIn(&wire.TxIn{PreviousOutPoint: o2.O, Witness: wire.TxWitness{bytesOf(0x30, 71), key2}})
+	r1.AddTxOut(wire.NewTxOut(30_000, append([]byte{0x00, 0x14}, bytesOf(0xb1, 20)...)))
+	extraTxs["U"], extraTxs["R1"] = o2.tx, r1
 	return u
 }()
+
+// extraTxs are the transactions of the second object, by name.
+var extraTxs = map[string]*wire.MsgTx{}
 
 func bytesOf(b byte, n int) []byte {
 	o := make([]byte, n)
@@ -75,6 +114,8 @@ func bytesOf(b byte, n int) []byte {
 // contents of a block, by name.
 var contentTxs = map[string][]string{
 	"e": {}, "T": {"T"}, "S1": {"S1"}, "S2": {"S2"}, "TS1": {"T", "S1"},
+	// pair spaces: the second object's tx / spender alone and next to the first object's
+	"U": {"U"}, "TU": {"T", "U"}, "R1": {"R1"}, "S1R1": {"S1", "R1"},
 }
 
 func txByName(n string) *wire.MsgTx {
@@ -85,6 +126,9 @@ func txByName(n string) *wire.MsgTx {
 		return uni.S1
 	case "S2":
 		return uni.S2
+	}
+	if tx, ok := extraTxs[n]; ok {
+		return tx
 	}
 	panic("unknown tx " + n)
 }
@@ -195,20 +239,40 @@ func (c *refChain) find(name string, lo, hi uint32) (*refBlock, int) {
 	return nil, 0
 }
 
-// confOf: where is the watched tx confirmed on the active chain.
-func (c *refChain) confOf(lo, hi uint32) (*refBlock, int) { return c.find("T", lo, hi) }
+// confOf: where is the watched tx of object obj confirmed on the active chain.
+func (c *refChain) confOf(obj int, lo, hi uint32) (*refBlock, int) {
+	return c.find(uni.obj[obj].txName, lo, hi)
+}
 
-// spendOf: where (and by which spender) is O spent on the active chain.
-func (c *refChain) spendOf(lo, hi uint32) (*refBlock, string) {
-	b1, _ := c.find("S1", lo, hi)
-	b2, _ := c.find("S2", lo, hi)
-	switch {
-	case b1 != nil && (b2 == nil || b1.height <= b2.height):
-		return b1, "S1"
-	case b2 != nil:
-		return b2, "S2"
+// spendOf: where (and by which spender) is the outpoint of object obj spent on the
+// active chain (the lowest block; spenders of one outpoint conflict, so at most one of
+// them is on a chain).
+func (c *refChain) spendOf(obj int, lo, hi uint32) (*refBlock, string) {
+	var (
+		best *refBlock
+		who  string
+	)
+	for _, name := range uni.obj[obj].spenders {
+		if b, _ := c.find(name, lo, hi); b != nil && (best == nil || b.height < best.height) {
+			best, who = b, name
+		}
 	}
-	return nil, ""
+	return best, who
+}
+
+// objOfTx maps a transaction name of a block content to (object, is the watched tx).
+func objOfTx(name string) (obj int, isConf bool) {
+	for i, o := range uni.obj {
+		if o.txName == name {
+			return i, true
+		}
+		for _, s := range o.spenders {
+			if s == name {
+				return i, false
+			}
+		}
+	}
+	panic("unknown tx " + name)
 }
 
 func (c *refChain) String() string {
@@ -220,24 +284,28 @@ func (c *refChain) String() string {
 }
 
 // scanConf is the fresh historical confirmation scan over [lo,hi] of the active chain.
-func (c *refChain) scanConf(lo, hi uint32) *chainntnfs.TxConfirmation {
-	b, idx := c.confOf(lo, hi)
+func (c *refChain) scanConf(lo, hi uint32) *chainntnfs.TxConfirmation { return c.scanConfObj(0, lo, hi) }
+
+func (c *refChain) scanConfObj(obj int, lo, hi uint32) *chainntnfs.TxConfirmation {
+	b, idx := c.confOf(obj, lo, hi)
 	if b == nil {
 		return nil
 	}
 	h := b.hash
-	return &chainntnfs.TxConfirmation{BlockHash: &h, BlockHeight: b.height, TxIndex: uint32(idx), Tx: uni.T, Block: b.block.MsgBlock()}
+	return &chainntnfs.TxConfirmation{BlockHash: &h, BlockHeight: b.height, TxIndex: uint32(idx), Tx: uni.obj[obj].tx, Block: b.block.MsgBlock()}
 }
 
 // scanSpend is the fresh historical spend scan over [lo,hi] of the active chain.
-func (c *refChain) scanSpend(lo, hi uint32) *chainntnfs.SpendDetail {
-	b, who := c.spendOf(lo, hi)
+func (c *refChain) scanSpend(lo, hi uint32) *chainntnfs.SpendDetail { return c.scanSpendObj(0, lo, hi) }
+
+func (c *refChain) scanSpendObj(obj int, lo, hi uint32) *chainntnfs.SpendDetail {
+	b, who := c.spendOf(obj, lo, hi)
 	if b == nil {
 		return nil
 	}
 	tx := txByName(who)
 	th := tx.TxHash()
-	op := uni.O
+	op := uni.obj[obj].O
 	return &chainntnfs.SpendDetail{SpentOutPoint: &op, SpenderTxHash: &th, SpendingTx: tx, SpenderInputIndex: 0, SpendingHeight: int32(b.height)}
 }
 
